@@ -13,7 +13,8 @@
    are abstracted as "one completion per dispatched command" (checked on the wire by the harness). *)
 From Coq Require Import List NArith Bool String.
 From Gluon Require Import Gen.FactsTokens Model.ImapTokens Model.ImapGrammar Model.ServeLoop
-  Proofs.ImapTokenFacts Proofs.ImapGrammarWf Proofs.ImapParseTop Proofs.ServeLoopProofs.
+  Proofs.ImapTokenFacts Proofs.ImapGrammarWf Proofs.ImapParseTop Proofs.ServeLoopProofs
+  Model.ImapCollector Proofs.ImapCollectorProofs.
 Import ListNotations.
 Open Scope N_scope.
 
@@ -65,6 +66,28 @@ Theorem C11_session_always_ends_closed : forall login_ok tls fuel st bs, (List.l
   snd (serve login_ok tls fuel st bs) = EndClosed.
 Proof. exact serve_ends_closed. Qed.
 Print Assumptions C11_session_always_ends_closed.
+
+(* The parser never reads beyond the CRLF that ends a line: for EVERY body without CR/LF that does not end in "}" - in
+   particular every prefix of a valid literal-free command, e.g. one that stops inside a month name - followed by CRLF and
+   then by anything, Parse either fails inside the line, and skipping the rest of the line leaves exactly what followed, or
+   succeeds having consumed exactly the line; the tag it reports is the line's.  (The builders take every data character
+   through a checked call: fact `builders_use_checked_tokens` read from imap/command/*.go.) *)
+Theorem C11_parse_stays_within_line : forall body more fuel, body_ok body ->
+  let bs := body ++ 13 :: 10 :: more in (List.length bs < fuel)%nat ->
+  (exists a, parse_command fuel bs = PErr (expected_tag bs) EParse a /\ skip_line a = Some more /\
+             (List.length a <= List.length bs)%nat) \/
+  (exists c, parse_command fuel bs = POk (expected_tag bs) c more).
+Proof. exact line_parse. Qed.
+Print Assumptions C11_parse_stays_within_line.
+
+(* The input collector holds exactly what the source delivered since the last Reset - whatever the sizes of the buffers
+   handed to Read - and therefore as many bytes as were delivered: it cannot grow faster than the input. *)
+Theorem C11_collector_exact : forall ops, collected ops = since_reset ops [].
+Proof. exact collected_exact. Qed.
+Print Assumptions C11_collector_exact.
+Theorem C11_collector_length : forall ops, List.length (collected ops) = delivered_len ops 0.
+Proof. exact collected_length. Qed.
+Print Assumptions C11_collector_length.
 
 (* One iteration of the reader/serve loop consumes exactly one complete line (whatever follows it) and reacts in one of
    the listed ways (line_reaction): one completion carrying the line's tag / "+" for an accepted IDLE / the completion of
